@@ -245,12 +245,72 @@ def path_checks(acc):
             acc.violation('path_differs_from_segment', {}, case, observed=r, expected=w)
 
 
+def smooth_joint_paths():
+    """continuous paths whose joints are smooth (same unit tangent on both sides) or kinked"""
+    k = 0.5522847498307936
+    circle = [CubicBezier(1 + 0j, 1 + k * 1j, k + 1j, 1j), CubicBezier(1j, -k + 1j, -1 + k * 1j, -1 + 0j),
+              CubicBezier(-1 + 0j, -1 - k * 1j, -k - 1j, -1j), CubicBezier(-1j, k - 1j, 1 - k * 1j, 1 + 0j)]
+    arcs = [Arc(2 + 0j, 2 + 2j, 0, 0, 1, 2j), Arc(2j, 2 + 2j, 0, 0, 1, -2 + 0j), Arc(-2 + 0j, 2 + 2j, 0, 0, 1, -2j)]
+    line_curve = [Line(0j, 2 + 0j), CubicBezier(2 + 0j, 3 + 0j, 4 + 1j, 4 + 2j), Line(4 + 2j, 4 + 5j)]
+    kinked = [Line(0j, 2 + 0j), Line(2 + 0j, 2 + 2j), QuadraticBezier(2 + 2j, 1 + 3j, 3j)]
+    return {'circle_4_cubics': (circle, True), 'arc_chain': (arcs, False), 'line_cubic_line': (line_curve, False),
+            'kinked': (kinked, False)}
+
+
+def joint_checks(acc):
+    for name, (segs, closed) in smooth_joint_paths().items():
+        p = Path(*segs)
+        n = len(segs)
+        ls = [s.length() for s in segs]
+        tot = sum(ls)
+        bounds = []
+        accum = 0.0
+        for l in ls[:-1]:
+            accum += l / tot
+            bounds.append(accum)
+        Ts = [(0.0, 0, 0.0), (1.0, n - 1, 1.0)] + [(b, None, None) for b in bounds]
+        for T, k_, t_ in Ts:
+            case = {'what': 'joint', 'path': name, 'T': T}
+            if k_ is None:
+                k_, t_ = p.T2t(T)
+            seg = segs[k_]
+            # the joint this parameter sits on, and whether it is smooth (independent control-polygon test)
+            if t_ > 0.5:
+                nxt = segs[(k_ + 1) % n] if (k_ + 1 < n or closed) else None
+                a, b = seg, nxt
+            else:
+                prv = segs[(k_ - 1) % n] if (k_ > 0 or closed) else None
+                a, b = prv, seg
+            with warnings.catch_warnings():
+                warnings.simplefilter('ignore')
+                r = outcome(lambda: float(p.curvature(T)))
+                w = outcome(lambda: float(seg.curvature(min(max(t_, 0.0), 1.0))))
+                ut = outcome(lambda: complex(p.unit_tangent(T)))
+                wt = outcome(lambda: complex(seg.unit_tangent(min(max(t_, 0.0), 1.0))))
+            if a is None or b is None:
+                smooth = True       # a free end of an open path: no joint
+            else:
+                ua, ub = a.unit_tangent(1), b.unit_tangent(0)
+                smooth = abs(ua - ub) < 1e-6
+            acc.case(case, cls='path_joint/%s' % ('smooth' if smooth else 'kink'))
+            sig = {'at': 'joint', 'smooth': smooth, 'side': 'end_of_segment' if t_ > 0.5 else 'start_of_segment'}
+            if ut[0] != 'ok' or wt[0] != 'ok' or abs(ut[1] - wt[1]) > 1e-9:
+                acc.violation('path_differs_from_segment', dict(sig, q='unit_tangent'), case, observed=ut, expected=wt)
+            if smooth:
+                if r[0] != 'ok' or w[0] != 'ok' or not abs(r[1] - w[1]) <= 1e-6 * max(1.0, abs(w[1])):
+                    acc.violation('path_differs_from_segment', dict(sig, q='curvature'), case, observed=r, expected=w)
+            else:
+                if r != ('ok', float('inf')):
+                    acc.violation('curvature_at_kink_not_inf', sig, case, observed=r, expected='inf (documented)')
+
+
 def shards(tier, seed):
     rots = [0, 37] if tier == 'quick' else [0, 37, 90, 180, 211, 300]
     out = [{'what': 'segment', 'shape': n, 'rot': r} for n in list(AB.LINES) + list(AB.QUADS) + list(AB.CUBICS) + list(AB.ARCS) for r in rots]
     out += [{'what': 'coincident', 'shape': n} for n, _, _ in coincident_shapes()]
     out += [{'what': 'transform', 'shape': n} for n in list(AB.LINES) + list(AB.QUADS) + list(AB.CUBICS) + list(AB.ARCS)]
     out.append({'what': 'path'})
+    out.append({'what': 'joints'})
     return out
 
 
@@ -264,6 +324,8 @@ def run_shard(desc, tier, seed):
                 check_coincident(desc['shape'], hi, inp, acc)
     elif desc['what'] == 'transform':
         check_transforms(desc['shape'], acc)
+    elif desc['what'] == 'joints':
+        joint_checks(acc)
     else:
         path_checks(acc)
     return acc
@@ -272,7 +334,7 @@ def run_shard(desc, tier, seed):
 def expected_classes(tier):
     return ['tangent/L/regular', 'tangent/Q/regular', 'tangent/C/regular', 'tangent/A/regular', 'tangent/Q/limit_order2',
             'tangent/C/limit_order2', 'tangent/C/limit_order3', 'curvature/Q', 'curvature/C', 'curvature/A', 'curvature/L',
-            'transform/reversed', 'transform/rotate30', 'path']
+            'transform/reversed', 'transform/rotate30', 'path', 'path_joint/smooth', 'path_joint/kink']
 
 
 def space(tier, seed):
@@ -294,6 +356,9 @@ def replay(case):
     elif w == 'transform':
         check_transforms(case['shape'], acc)
         acc.vlist = [v for v in acc.vlist if v['case'].get('t') == case['t'] and v['case'].get('transform') == case['transform']]
+    elif w == 'joint':
+        joint_checks(acc)
+        acc.vlist = [v for v in acc.vlist if v['case'].get('path') == case['path'] and v['case'].get('T') == case['T']]
     else:
         path_checks(acc)
     return acc.vlist
